@@ -503,6 +503,7 @@ def _world_set_outbuf(self, v):
 World.outbuf = property(_world_get_outbuf, _world_set_outbuf)
 
 
+SLOT_EXTRA = {}     # id(prog) -> {field name: initial value} for ChannelSlot fields the harness does not know (filled by iocommon.reply_capacity)
 REPLY_CAP = {'cap': 2}    # capacity of a slot's reply queue; iocommon.io_executor replaces it by what ChannelSlot::new really creates
 
 
@@ -648,9 +649,16 @@ def mk_slot_named(prog, w, name, chan_id, **kw):
     names = prog.types.fields('ChannelSlot')
     want = ['rx', 'tx', 'collector', 'consumers', 'return_handler', 'pub_confirm_handler']
     if names != want:
-        if names is None or set(names) != set(want):
+        if names is None or not set(want) <= set(names):
             raise Unsupported(f"ChannelSlot fields changed: {names}")
-        v = Agg({names.index(n): v.fields[i] for i, n in enumerate(want)}, 'ChannelSlot')
+        extra = [n for n in names if n not in want]
+        dflt = SLOT_EXTRA.get(id(prog), {})
+        if any(n not in dflt for n in extra):
+            raise Unsupported(f"ChannelSlot has fields the harness does not know and ChannelSlot::new was not executed for their initial values: {extra}")
+        fields = {names.index(n): v.fields[i] for i, n in enumerate(want)}
+        for n in extra:
+            fields[names.index(n)] = copy.deepcopy(dflt[n])   # whatever ChannelSlot::new initialises it to
+        v = Agg(fields, 'ChannelSlot')
     cn = prog.types.fields('ContentCollector')
     if cn != ['channel_id', 'kind']:
         raise Unsupported(f"ContentCollector fields changed: {cn}")
